@@ -24,7 +24,8 @@ func (Driver) Info() core.Info {
 		Rule: "case = list of 1..4 types: drawn from a fixed 64-type pool (primitives, lists, sets, maps, tuples, objects, nested, with and without the dynamic placeholder, two capsule types) " +
 			"with strategies biased towards lists next to tuples and maps next to objects, optionally wrapped in a common or mixed constructor, now and then a random type from the shared generator, and (1 list in 5) a random type of depth 2..4 next to derived variants of itself (leaves swapped, list<->tuple, map<->object, set->list, placeholder inserted); " +
 			"plus every ordered pair of pool types, every ordered triple within the list/tuple and the map/object family (thorough: every ordered triple of the pool and every ordered quadruple within the two families) and a fixed corpus. For each list Unify and UnifyUnsafe are called; every returned non-nil conversion is applied to 7 values of its input type " +
-			"(known, with nulls, with unknown/refined-unknown members, null, unknown, marked). distinct = hash of the type list; non-trivial = unification succeeded in some mode and at least one returned conversion was applied to a value",
+			"(known, with nulls, with unknown/refined-unknown members, null, unknown, marked). History step per list: ONE slice is then handed to Unify, UnifyUnsafe, UnifyUnsafe, Unify, Unify in a row " +
+			"(every transition between the modes); after each call the slice must still hold the caller's types and the answer must be the one a fresh slice got (the last call of each mode also has its conversions applied). distinct = hash of the type list; non-trivial = unification succeeded in some mode and at least one returned conversion was applied to a value",
 		Assumptions: []string{
 			"a value 'of its input type' is a value whose type conforms to the input type (placeholders instantiated by the value generator)",
 			"'placeholder-free inputs' = no type of the list contains DynamicPseudoType at any depth",
@@ -441,6 +442,8 @@ func checkList(c *core.Ctx, idx int64, types []cty.Type, extra [][]cty.Value, r 
 			c.Violate("convert.UnifyUnsafe", facetUnsafeFail, "", typesGo(types), fmt.Sprintf("Unify gave %#v, UnifyUnsafe gave NilType (or panicked)", res[0].ty))
 		}
 	}
+	// history step: the caller keeps ONE slice and unifies it again (both modes, every transition)
+	applied += checkSharedSlice(c, types, nodes, vals, res, hasDyn, eq)
 	c.Distinct(typesText(types), applied > 0)
 	if applied > 0 && c.WantSample() {
 		s := map[string]any{"types": typesText(types)}
